@@ -5,7 +5,8 @@
    k-groups: end to end at stream level.  compact: the generic scan theorem (need = max 1 size).
    roaring: the scanner fold is the intersection of the per-field results for every field order. *)
 From Coq Require Import List NArith ZArith Bool Permutation.
-From BE Require Import Model.Scan Model.Build Model.Rr Proofs.ScanProof Proofs.BuildProof Proofs.Glue.
+From BE Require Model.Rr.
+From BE Require Import Model.Scan Model.Build Proofs.ScanProof Proofs.BuildProof Proofs.Glue.
 Import ListNotations.
 Local Open Scope N_scope.
 
@@ -27,11 +28,11 @@ Theorem C18_compact_scan_any_streams : forall (needf : N -> nat) (os : list stre
 Proof. exact scan_correct. Qed.
 
 Theorem C18_roaring_fold_any_order : forall pl pls pls' x, Permutation (pl :: pls) pls' ->
-  Rr.mem x (res (Rr.retrieve fresh (pl :: pls))) = all_in x pls'.
-Proof. intros pl pls pls' x HP. rewrite retrieve_fresh. apply all_in_perm. exact HP. Qed.
+  Rr.mem x (Rr.res (Rr.retrieve Rr.fresh (pl :: pls))) = Rr.all_in x pls'.
+Proof. intros pl pls pls' x HP. rewrite Rr.retrieve_fresh. apply Rr.all_in_perm. exact HP. Qed.
 
 (* same refutation witness as C03: with no configured field the roaring fold is empty *)
-Theorem C18_refuted_nofields : forall x, Rr.mem x (res (Rr.retrieve fresh [])) = false /\ all_in x [] = true.
+Theorem C18_refuted_nofields : forall x, Rr.mem x (Rr.res (Rr.retrieve Rr.fresh [])) = false /\ Rr.all_in x [] = true.
 Proof. intros x. split; reflexivity. Qed.
 
 Print Assumptions C18_kgroups_any_matcher.
